@@ -17,10 +17,23 @@
      KRetry    tableCompactionBuilder.run driven attempt by attempt under injected storage faults: after every failed
                attempt the observed snapshot fields (builder and compaction) and the number of finished tables must
                be those of the failure-free model run at position snapIter; the successful attempt must end with the
-               model's tables, dropCnt and kerrCnt. *)
+               model's tables, dropCnt and kerrCnt.
+   Loop cases (model Lsm/RangeCompact.v):
+     KRange    one observed run of tableRangeCompaction's retry loop (DB.CompactRange): the version and compaction
+               pointers it started on, the range, GetCompactionSourceLimit / GetCompactionExpandLimit per level, and per
+               pass m and the compactions (level, inputs of both levels, the tables the real builder installed); the model's
+               compact_range, fed these output tables, must go through exactly the same passes (same m, same levels, same
+               inputs) within (observed passes) fuel and end in the observed layout with the observed compaction pointers;
+     KScore    version.computeCompaction on a pinned version with the real table sizes: the model must compute the
+               observed cLevel and the observed cScore >= 1; at a quiescent point (VerifWaitIdle) need_compaction = false
+               and, when CompactionL0Trigger <= WriteL0PauseTrigger, resume_write = true;
+     KAuto     one observed session.pickCompaction: version, compaction pointers, cSeek; the model's pick_seed must
+               choose the observed source level, seed table and type. *)
 From GL Require Export Corr.LsmRun.
-From GL Require Import Base.Bytes Codec.IKey Corr.Cmps Gen.Consts Gen.Inst Lsm.Lsm Lsm.Compact Lsm.Pick Lsm.Builder.
+From GL Require Import Base.Bytes Codec.IKey Corr.Cmps Gen.Consts Gen.Inst Lsm.Lsm Lsm.Compact Lsm.Pick Lsm.Builder
+  Lsm.RangeCompact.
 From Coq Require Import String.
+From Coq Require Export ZArith.
 
 Inductive kmeta := KM (num size : N) (lo hi : kentry).
 
@@ -34,7 +47,16 @@ Inductive kattempt :=
   KA (failed : bool) (snapIter : N) (hasLast : bool) (lastU : string) (lastSeq snapKerr snapDrop : N)
      (gpi : N) (seen : bool) (gpbytes : N) (tptrs : list N) (ntables kerr drop : N).
 
+(* one compaction of a range pass: source level, inputs of both levels, installed outputs *)
+Inductive kcomp := KC (lvl : N) (t0 t1 : list N) (outs : list kmeta).
+
 Inductive c06case :=
+| KRange (cid : N) (v : list (list kmeta)) (umin umax : option string) (srcl expl : list N)
+         (ptrs0 : list (option kentry)) (passes : list (N * list kcomp)) (post : list (list N))
+         (ptrs1 : list (option kentry))
+| KScore (v : list (list kmeta)) (trigger pause : Z) (totl : list Z) (obsLevel : Z) (obsGe1 idle : bool)
+| KAuto (cid : N) (v : list (list kmeta)) (ptrs : list (option kentry)) (seek : option (N * N)) (trigger : Z)
+        (totl : list Z) (obsLevel obsSeed obsTyp : N)
 | KL (x : lsmcase)
 | KBuild (cid : N) (minSeq : N) (strict : bool) (tableSize maxgp : N) (ins : list ktable) (gp : list kmeta)
          (deeper : list (list kmeta)) (sizes : list ksizes) (outs : list (list kentry))
@@ -125,8 +147,86 @@ Definition snap_matches (sn : snapshot) (a : kattempt) : bool :=
       && ptrs_eqb (cs_ptrs (sn_cs sn)) tp
   end.
 
+(* ---- loop cases ---- *)
+Definition to_ptrs (l : list (option kentry)) : list (option ikey) := map (option_map (fun e => e_ikey (to_entry e))) l.
+
+Definition ikey_eqb (a b : ikey) : bool := beq (uk a) (uk b) && (num a =? num b).
+Fixpoint ptrs_opt_eqb (a b : list (option ikey)) : bool :=
+  match a, b with
+  | [], [] => true
+  | Some x :: a', Some y :: b' => ikey_eqb x y && ptrs_opt_eqb a' b'
+  | None :: a', None :: b' => ptrs_opt_eqb a' b'
+  | _, _ => false
+  end.
+
+Definition kc_outs (k : kcomp) : list kmeta := match k with KC _ _ _ o => o end.
+Definition all_outs (passes : list (N * list kcomp)) : list (list kmeta) :=
+  List.concat (map (fun ps => map kc_outs (snd ps)) passes).
+
+Definition comp_matches (cm : compaction) (k : kcomp) : bool :=
+  match k with
+  | KC l t0 t1 _ => nat_eqN (c_level cm) l && nums_eqb (nums_of (c_t0 cm)) t0 && nums_eqb (nums_of (c_t1 cm)) t1
+  end.
+Fixpoint comps_match (a : list compaction) (b : list kcomp) : bool :=
+  match a, b with
+  | [], [] => true
+  | x :: a', y :: b' => comp_matches x y && comps_match a' b'
+  | _, _ => false
+  end.
+Fixpoint passes_match (a : list (nat * list compaction)) (b : list (N * list kcomp)) : bool :=
+  match a, b with
+  | [], [] => true
+  | x :: a', y :: b' => nat_eqN (fst x) (fst y) && comps_match (snd x) (snd y) && passes_match a' b'
+  | _, _ => false
+  end.
+
+Definition opts_of (srcl expl : list N) (totl : list Z) (trigger pause : Z) : copts :=
+  {| o_src_limit := fun l => nth l srcl 0; o_exp_limit := fun l => nth l expl 0; o_gp_limit := fun _ => 0;
+     o_tot_limit := fun l => nth l totl 0%Z; o_l0_trigger := trigger; o_l0_pause := pause |}.
+
 Definition run_c06 (cs : c06case) : bool :=
   match cs with
+  | KRange cid v umin umax srcl expl ptrs0 passes post ptrs1 =>
+      let c := cmp_of_id cid in
+      let outs := all_outs passes in
+      let sz := sz_of (List.concat v ++ List.concat outs) in
+      let bld := fun (k : nat) (_ : list (list table)) (_ : compaction) => map to_mtable (nth k outs []) in
+      let o := opts_of srcl expl [] 1%Z 1%Z in
+      let st := {| cp_v := to_mlevels v; cp_ptrs := to_ptrs ptrs0; cp_seek := None; cp_n := O |} in
+      match compact_range c kp sz o bld (S (List.length passes)) st (option_map unhex umin) (option_map unhex umax) [] with
+      | POk (st', ps) => passes_match ps passes && layout_eqb (map nums_of (cp_v st')) post
+                         && ptrs_opt_eqb (cp_ptrs st') (to_ptrs ptrs1)
+      | _ => false
+      end
+  | KScore v trigger pause totl obsLevel obsGe1 idle =>
+      let sz := sz_of (List.concat v) in
+      let o := opts_of [] [] totl trigger pause in
+      let st := {| cp_v := to_mlevels v; cp_ptrs := []; cp_seek := None; cp_n := O |} in
+      let cc := compute_compaction sz o (cp_v st) in
+      (match fst cc with Some l => (Z.of_nat l =? obsLevel)%Z | None => (obsLevel =? -1)%Z end)
+      && Bool.eqb (sc_ge1 (snd cc)) obsGe1
+      && (if idle then negb (need_compaction sz o st)
+                       && (if (0 <? trigger)%Z && (trigger <=? pause)%Z then resume_write o st else true)
+          else true)
+  | KAuto cid v ptrs seek trigger totl obsLevel obsSeed obsTyp =>
+      let c := cmp_of_id cid in
+      let sz := sz_of (List.concat v) in
+      let o := opts_of [] [] totl trigger 1%Z in
+      let lv := to_mlevels v in
+      let sk := match seek with
+                | Some (l, n) => match find (fun t => t_num t =? n) (nth (N.to_nat l) lv []) with
+                                 | Some t => Some (N.to_nat l, t)
+                                 | None => None
+                                 end
+                | None => None
+                end in
+      (match seek, sk with Some _, None => false | _, _ => true end) &&
+      match pick_seed c sz o {| cp_v := lv; cp_ptrs := to_ptrs ptrs; cp_seek := sk; cp_n := O |} with
+      | POk (Some (l, [t], ty)) =>
+          nat_eqN l obsLevel && (t_num t =? obsSeed)
+          && (match ty with TLevel0 => 0 | TNonLevel0 => 1 | TSeek => 2 end =? obsTyp)
+      | _ => false
+      end
   | KBuild cid minSeq strict tableSize maxgp ins gp deeper sizes outs =>
       let c := cmp_of_id cid in
       let es := merge_inputs c (map to_mtable_full ins) in
